@@ -386,7 +386,8 @@ def run(ctx: Ctx) -> None:
         why = f"a field is emitted under {sorted(deps)}; required exactly {sorted(want)}"
     ctx.ob("R20.5", "gentest:nondefault_repr|skip conditions", ok, msg=why + ": a field whose value differs from its declared default would be omitted (or a default one printed), so the repr no longer reconstructs an equal object", node=inner, mod=gt)
     wtxt = norm(nr).replace("dataclasses.MISSING", "MISSING")
-    ok = "f.default_factory is not MISSING" in wtxt and "f.default_factory()" in wtxt and ("= f.default" in wtxt.replace("= f.default_factory", "") or "return f.default" in wtxt.replace("return f.default_factory", ""))
+    plain_default = wtxt.replace("f.default_factory", "")
+    ok = "f.default_factory is not MISSING" in wtxt and "f.default_factory()" in wtxt and "f.default" in plain_default
     ctx.ob("R20.5", "gentest:nondefault_repr|declared default is factory-aware", ok, msg="the declared default is not taken from default_factory() when one exists", node=inner, mod=gt, nontrivial=False)
     ctx.ob("R20.5", "gentest:nondefault_repr|qualified class name", "__qualname__" in txt, msg="the class name printed is not the qualified name", node=inner, mod=gt, nontrivial=False)
 
